@@ -13,8 +13,9 @@ EXPLANATION = ('Existence of a linearization for every schedule is NOT decided. 
                'AlreadyExists the destination is touched and the source unlinked before an Ok exit, any other kind reaches only '
                'Err exits; (R04.3) the handle in a lookup\'s Ok(Some) exit is the payload of an open of (directory + key) made by that '
                'lookup (the number of attempts is C20\'s concern); (R04.4) in the stacked miss path, put:Ok is followed on every path to an Ok exit '
-               'by a write-side lookup of the same key, whose hit can be what is returned.')
-FLOORS = {'R04.1': 2, 'R04.2': 3, 'R04.3': 2, 'R04.4': 2}
+               'by a write-side lookup of the same key, whose hit can be what is returned; (R04.5) every Ok exit of the '
+               'cache-directory set/put is dominated by a successful publish or the link-found-it branch (= R18.2).')
+FLOORS = {'R04.1': 2, 'R04.2': 3, 'R04.3': 2, 'R04.4': 2, 'R04.5': 2}
 
 
 def r04_1(ctx):
@@ -125,6 +126,15 @@ def r04_4(ctx):
     return out
 
 
+def r04_5(ctx):
+    """a set/put that returns Ok has taken effect: every Ok exit of the cache-directory inserts is dominated by a
+    successful publish or by the link-found-the-entry branch (shared with R18.2).  Otherwise a later lookup can still
+    return an older value, or miss, after the write returned."""
+    from rules import c18
+    return [inst('R04.5', i['key'].split('|', 1)[1], i['ok'], i['detail'], path=i.get('path') or [])
+            for i in c18.r18_2(ctx) if i['key'].split('|', 1)[1].startswith('cachedir.')]
+
+
 def run(ctx):
     from runner import collect
-    return collect(ctx, r04_1, r04_2, r04_3, r04_4)
+    return collect(ctx, r04_1, r04_2, r04_3, r04_4, r04_5)
